@@ -14,6 +14,21 @@ PROPS = {
         assumptions=[GO_RUNTIME, IEEE, "sequential use of the index (concurrency is C13)",
                      "dataset-level clause (merge across partitions) is carried by C09's merge theorems and C10's disjoint ownership"],
     ),
+    "C02": dict(
+        module="Anndb.Props.C02",
+        engines=[dict(name="partition", quick=["hist=120"], thorough=["hist=1500", "ops=120"])],
+        trusted=["model of storage/partition.go's apply path (Model/Partition.lean) tied to the real partition by exact transcript equality: outcome, Len, raw byte counter, contents after every entry; whole graph in the order-independent regime (engine partition)",
+                 "protobuf marshal/unmarshal of PartitionChange round-trips (the harness feeds real marshalled entries)"],
+        assumptions=[GO_RUNTIME, IEEE, "metadata keys/values in the differential run are ASCII (protobuf string fields must be UTF-8); non-UTF8 metadata is exercised at the index layer by C08",
+                     "the floating-point link estimate inside Hnsw.BytesSize is not modelled: the harness checks reported - data in [0, len*100000]"],
+    ),
+    "C04": dict(
+        module="Anndb.Props.C04",
+        engines=[dict(name="partition", quick=["hist=120"], thorough=["hist=1500", "ops=120"])],
+        trusted=["same model and tie as C02; the effect of snapshot Save+Load on the graph is Index.reload, whose byte-level counterpart is C08's codec",
+                 "three real stand-alone partitions fed byte-identical entries, one restoring a snapshot at every cut (into a fresh or a used replica)"],
+        assumptions=[GO_RUNTIME, "graph equality between replicas is not claimed (legitimately non-deterministic); contents, counters and outcomes are"],
+    ),
     "C19": dict(
         module="Anndb.Props.C19",
         engines=[dict(name="pq", quick=["hist=400"], thorough=["hist=8000", "ops=240"])],
